@@ -104,6 +104,10 @@ def quick_serials():
         n = serial_of(datetime.date(y, 2, 28))
         s.update(range(n - 3, n + 5))
     s.update(range(1, MAXSERIAL + 1, 997))
+    # the turn of every year 1900-2200 (week 52/53/1), and of some later ones
+    for y in list(range(1900, 2201)) + [2400, 3000, 4004, 9998]:
+        n = serial_of(datetime.date(y, 12, 31))
+        s.update(range(n - 6, min(MAXSERIAL, n + 8) + 1))
     s.discard(60)
     return sorted(s)
 
@@ -294,12 +298,17 @@ def run(ctx):
         serial_of(datetime.date(2020, 2, 29)),
         serial_of(datetime.date(2021, 12, 31)),
         serial_of(datetime.date(2000, 3, 31)), 61, 100]
+    # starts from which a few months lead into February of century years
+    for y, mth, dd in ((2099, 2, 15), (2100, 1, 31), (2099, 12, 31),
+                       (2100, 3, 31), (2199, 11, 30), (2000, 1, 31),
+                       (2399, 8, 31), (1999, 12, 31), (2299, 1, 29)):
+        sample_serials.append(serial_of(datetime.date(y, mth, dd)))
     sample_serials = [n for n in sample_serials if n > 61]
     for n in sample_serials:
         d = date_of(n)
-        for _ in range(12 if not thorough else 60):
-            k = rng.choice([0, 1, -1, 2, 11, 12, -12, 13, 120, -120,
-                            rng.randint(-1300, 1300)])
+        for _ in range(16 if not thorough else 60):
+            k = rng.choice([0, 1, -1, 2, 3, -2, 11, 12, -12, 13, 14, 120,
+                            -120, rng.randint(-1300, 1300)])
             moved = add_months(d, k)
             if moved is None or moved > datetime.date(9999, 12, 31):
                 continue
